@@ -54,7 +54,12 @@ def gen_params():
     tmp = BUILD / "params"
     tmp.mkdir(parents=True, exist_ok=True)
     (tmp / "params.c").write_text(PARAMS_C)
-    r = run(["gcc", "-I", str(REPO), "-o", str(tmp / "params"), str(tmp / "params.c")], timeout=60)
+    inc = ["-I", str(REPO)]
+    if not (REPO / "autoconf.h").exists():          # a tree that was never configured: use the recorded configuration header
+        (tmp / "inc").mkdir(exist_ok=True)
+        shutil.copy(Path(__file__).resolve().parent.parent / "harness" / "autoconf.fallback.h", tmp / "inc" / "autoconf.h")
+        inc += ["-I", str(tmp / "inc")]
+    r = run(["gcc"] + inc + ["-o", str(tmp / "params"), str(tmp / "params.c")], timeout=60)
     if r.returncode != 0:
         return None, r.stderr.decode(errors="replace")
     out = run([str(tmp / "params")], timeout=10).stdout.decode()
